@@ -9,7 +9,7 @@ CHECKS = {
          "(tail-covering map, GL3 vs GL2 rules, convergence-certified asymmetric three-valued verdict) + seeded goodness-of-fit of the "
          "real sampler against the cubature's own cell masses (DKW / Hoeffding bounds, false-alarm 1e-9)",
          "Exploration: ~100 (distribution, parameter draw, condition) cases per quick run (all five factories x orientation x cond x "
-         "transformer in dim 1-2 + hand-built Transformed, sigma 0.3/0.6; 3e7 density evaluations, one sampler test per held case); "
+         "transformer in dim 1-2 + hand-built Transformed incl. flows onto a restricted sample space (Exp / SoftPlus tails) integrated over all of R^d, sigma 0.3/0.6; 3e7 density evaluations, one sampler test per held case); "
          "thorough adds sigma 1.0 and every case at every sigma.",
          "Mass defects below 0.2 % (1-D) / 1 % (2-D) and sampler discrepancies below ~2.5 % CDF distance are out of resolution; "
          "unconverged cubatures are inconclusive, never alarms; every architecture x orientation must have a conclusive case.",
@@ -48,13 +48,13 @@ CHECKS = {
          "arbitrary values in the box |raw|<=50, and - through a harness rebinding of `step` in the training modules (invariant at a "
          "hook) - after every update of real training runs with aggressive optimisers; invalid constructor arguments must raise",
          "Exploration: 29 object kinds x (uniform / corner / mixed / normal) raw assignments x repetitions, ~260 constructor round trips with "
-         "magnitudes 1e-6..1e6, 25 invalid-argument probes, 32 training histories (230 checked steps) per quick run.",
+         "magnitudes 1e-6..1e6, 25 eager invalid-argument probes + 38 with the invalid value traced (constructor under filter_jit / constructed and used inside jax.jit), 32 training histories (230 checked steps) per quick run.",
          "Planar predicate only where the constraint is representable (w.u >= -30); spline strictness only for softmax_adjust >= 1e-3.",
          "DESIGN.md 4/C11"),
  "C09": ("runtime invariant monitor: exact-zero / strict-positivity predicates on the float64 autodiff Jacobians of the real layers and of "
          "the unwrapped masked conditioner after every trainable leaf has been overwritten; mask helpers vs NumPy definitions",
          "Exploration over an enumerated grid (dim 1-4 x cond x width 1-5 x depth 0-2 x transformer sizes, BNAF block sizes; quick: half "
-         "of it, thorough: all x 4 weight modes x 3 seeds) with weights at init, N(0,25), +-50 corners and all-positive; forbidden "
+         "of it, thorough: all x 4 weight modes x 3 seeds) with weights at init, N(0,25), +-50 corners, all-positive and (block networks) positive values of 400-1500 where only NaN-freeness and triangularity are judged; rank_based_mask over every integer dtype; forbidden "
          "entries must be exactly 0.0, permitted ones non-zero under the all-positive assignment.",
          "Trusts jax.jacfwd; the permitted-dependency clause is only evaluated where every path is provably active (all-positive, relu, positive inputs).",
          "DESIGN.md 4/C09"),
@@ -70,7 +70,7 @@ CHECKS = {
          "x/condition slice each element was computed from; decoded against NumPy broadcasting; real conditional flows compared with a "
          "Python loop of unbatched public calls",
          "Exploration: exhaustive over a lattice of event/condition/batch/sample shapes (8 batch shapes squared x 3 events x 4 condition "
-         "shapes for log_prob, 4 sample shapes x batch shapes for sample and sample_and_log_prob) for tag distributions, plus 4 real "
+         "shapes for log_prob, 4 sample shapes x batch shapes for sample and sample_and_log_prob; zero-length batch axes on x, the condition and sample_shape included) for tag distributions, plus 4 real "
          "conditional distributions and 4 restricted-support distributions whose batches mix points inside and outside the support.",
          "Trusts exactness of the float64 tag encoding (21+21 key bits, 10-bit slice id) and NumPy's broadcasting as the definition.",
          "DESIGN.md 4/C06"),
@@ -94,7 +94,7 @@ CHECKS = {
          "methods; the real combinator's four methods, declared shape/cond_shape (vs NumPy's own stack/concatenate/index semantics), "
          "merge_chains, indexing, slicing and merge_transforms are compared with it",
          "Exploration: systematic sweep over every valid axis (negative included), every Partial index kind, Vmap parameter/condition "
-         "mapping variants, plus random trees; ~200 trees x 2 parameter draws x 4 methods x 24 inputs per quick run.",
+         "mapping variants, integer class-label conditions through EmbedCondition (table lookup, also inside Chain / Invert), plus random trees; ~200 trees x 2 parameter draws x 4 methods x 24 inputs per quick run.",
          "Trusts NumPy's axis/index semantics as the definition and the children's own methods (decided by C01/C02/C07).",
          "DESIGN.md 4/C08"),
  "C18": ("runtime NaN/Inf monitor: jitted+vmapped bundles evaluate the public log_prob, jax.grad w.r.t. the input and the gradient "
@@ -134,7 +134,7 @@ CHECKS = {
          "callbacks) + icontract contracts on the real train_val_split/get_batches; offline history checker",
          "Exploration: hundreds (quick) / thousands (thorough) of sampled (n, batch_size, val_prop, condition, epochs, key) "
          "configurations of the real fit_to_data are run and the complete loss-call history of each is checked for partition, "
-         "pairing, at-most-once use, remainder size, no validation row in a gradient step, key freshness and same-key determinism.",
+         "pairing, at-most-once use, remainder size, no validation row in a gradient step, key freshness and same-key determinism, in the worker and across fresh interpreter processes with different str-hash salts.",
          "Trusts ordered jax.debug.callback delivery; rows are identified by tags embedded in the data; split size accepted within 1 of val_prop*n.",
          "DESIGN.md 4/C15"),
  "C16": ("runtime history monitor: scripted loss + counting optimiser drive the real training loops; "
